@@ -191,3 +191,29 @@ func VerifC18FrameAlloc() {
 	}
 	rt.Reach("c18.alloc.done")
 }
+
+// VerifC18LongNames: names and lease ids at and around the longest file name
+// the mount can hold (255 bytes) and well beyond: every frame type that carries
+// a name round-trips them unchanged.
+func VerifC18LongNames() {
+	n := []int{254, 255, 256, 1000}[rt.Choose("name.len", 4)]
+	name := string(rt.Bytes("long.name", n))
+	var f StreamFrame
+	switch rt.Choose("frame.type", 4) {
+	case 0:
+		f = &LTXStreamFrame{Size: rt.I64("ltx.size"), Name: name}
+	case 1:
+		f = &DropDBStreamFrame{Name: name}
+	case 2:
+		f = &HandoffStreamFrame{LeaseID: name}
+	case 3:
+		f = &HWMStreamFrame{TXID: ltx.TXID(rt.U64("hwm.txid")), Name: name}
+	}
+	var w rt.Buf
+	rt.Check(WriteStreamFrame(&w, f) == nil, "WriteStreamFrame accepts the name")
+	r := &rt.SplitReader{Data: w.B, Mode: rt.Choose("split.mode", 2)}
+	g, err := ReadStreamFrame(r)
+	rt.Check(err == nil && g != nil && verifC18SameFrame(f, g), "a frame with a long name reads back identical")
+	rt.Check(r.Pos == len(w.B), "decoder consumes exactly the frame")
+	rt.Reach("c18.longnames")
+}
